@@ -91,15 +91,14 @@ def setOffset (s : Stack) (off : Int) (v : VCell) : Outcome Stack :=
 def grow (s : Stack) : Stack :=
   { s with cells := s.cells ++ List.replicate s.cells.length VCell.undefined }
 
-/-- `push`: one doubling always suffices when the capacity is positive and `sp < capacity`;
-    the general case (capacity 0) cannot occur (`Stack::new` allocates 256 cells). -/
+/-- `push`: writes cell `sp + 1`, doubling the capacity first when it is full (`sp + 1 = capacity`
+    is the only reachable full case since `sp < capacity` always; the padding formula also covers
+    the unreachable ones so that `push` is total). -/
 def push (s : Stack) (v : VCell) : Stack :=
   if s.sp + 1 < s.cells.length then { cells := s.cells.set (s.sp + 1) v, sp := s.sp + 1 }
-  else
-    let g := s.grow
-    if s.sp + 1 < g.cells.length then { cells := g.cells.set (s.sp + 1) v, sp := s.sp + 1 }
-    else { cells := (g.cells ++ List.replicate (s.sp + 2 - g.cells.length) VCell.undefined).set (s.sp + 1) v,
-           sp := s.sp + 1 }
+  else { cells := (s.cells ++ List.replicate (max s.cells.length (s.sp + 2 - s.cells.length))
+                      VCell.undefined).set (s.sp + 1) v,
+         sp := s.sp + 1 }
 
 def pop (s : Stack) : Outcome (VCell × Stack) :=
   if 0 < s.sp then
